@@ -135,17 +135,19 @@ Proof.
   destruct (Nat.eqb n p); fin.
 Qed.
 
-Lemma setop_render : forall b ops st,
-  fold_res (fun (st : sst) n => if negb (Nat.eqb b n) then Err SetOpExc else Ok st) st ops =
-  if existsb (fun n => negb (Nat.eqb n b)) ops then Err SetOpExc else Ok st.
+(* rendering a chain succeeds exactly when no operand, at any depth, differs in arity from its chain *)
+Fixpoint sop_renders_spec (o : sop) : sop_renders o = negb (sop_mismatch o).
 Proof.
-  intros b ops. induction ops as [|n ops IH]; intro st; cbn; auto.
-  rewrite (Nat.eqb_sym n b). destruct (Nat.eqb b n); cbn; auto.
+  destruct o as [n|b ops]; [reflexivity|].
+  cbn [sop_renders sop_mismatch].
+  induction ops as [|x r IH]; [reflexivity|].
+  rewrite (sop_renders_spec x), IH, (Nat.eqb_sym b (sop_arity x)).
+  destruct (sop_mismatch x), (Nat.eqb (sop_arity x) b); reflexivity.
 Qed.
 Theorem guards_s_exact : forall s c k, step_s s c = Err k <-> first_fired guards_s (s, c) = Some k.
 Proof.
-  intros [b ops] c k. destruct c; unf; cbn; [fin|].
-  rewrite setop_render. destruct (existsb _ ops); fin.
+  intros [b ops] c k. destruct c; unf; cbn -[sop_renders sop_mismatch]; [fin|].
+  rewrite sop_renders_spec. destruct (sop_mismatch (SNest b ops)); fin.
 Qed.
 
 (* ------------------------------------------------------------------------------------------ *)
